@@ -40,6 +40,82 @@ PLANS = {
                  ["c19.applies"]),
 }
 
+MEM_ASSUME = CODEC_ASSUME + [
+    "initial states: every valid image of the bounded tree universe (so externally produced images are included); histories are covered by induction over single transitions because the state of a flat value is its byte image",
+    "documented panics (remove/swap_remove out of range, resize beyond capacity) are not generated",
+]
+
+def mem(prop, cfgs, rule, must, extra_quick=(), extra_thorough=()):
+    def steps(tier):
+        return [{"type": "tlc-replay", "module": "MCMem", "cfg": "MCMem_%s_%s.cfg" % (c, tier)} for c in cfgs]
+    return {
+        "technique": TECH,
+        "level_text": "FlatMem (spec/FlatOps.tla, MCMem.tla) is the state machine 'a flat value in a buffer': the state is the layout-annotated tree (its byte image is Enc), "
+                      "the actions are the API operations at every node (stavec operations of FlatVec/FlatString, FlexVec push/pop/truncate/clear, item edits, assign_in_place, field writes). "
+                      "TLC explores every reachable state from every valid image of the bounded universe, checks RoundTrip / SizeSufficient / len<=cap / chain shape in each, and prints every "
+                      "generated transition (pre-image, path, operation, result, post tree, size, FIXED/ANY/SAME mask); each is replayed from its pre-image under three fills of the undetermined bytes "
+                      "into the real library in guarded memory and compared through this property's projection.",
+        "level_note": "Trusted: TLC, spec/FlatOps.tla as the meaning of the operations, harness. Bounds: the types and lengths of the MCMem_*.cfg files; element/argument alphabets of spec/FlatValues.tla.",
+        "quick": list(extra_quick) + steps("quick"),
+        "thorough": list(extra_thorough) + steps("thorough"),
+        "rule": rule, "must_exercise": must, "assumptions": MEM_ASSUME, "exhaustive": True,
+    }
+
+PLANS.update({
+    "C11": mem("C11", ["vec", "comp"], "one case per generated transition of MCMem whose target node is a FlatVec / FlatString (top level, struct tail, enum payload, FlexVec item); "
+               "x3 fills; compared: result, returned element, len/capacity/contents, remaining, size(), ==, validate, re-map, determined bytes; non-trivial = all of them",
+               ["op.vec.push.ok", "op.vec.push.refused", "op.vec.pop.*", "op.vec.push_slice.refused", "op.vec.remove.ok", "op.vec.swap_remove.ok", "op.vec.resize.ok", "op.vec.set.ok", "op.vec.extend.ok", "op.vec.truncate.ok", "op.str.push.ok", "op.str.push_str.refused", "op.str.clear.ok"]),
+    "C12": mem("C12", ["flex", "comp"], "one case per generated transition whose target is a FlexVec or lies inside a FlexVec item (item edits); compared: result, len(), is_empty(), items in order with contents and capacities, validate, re-map, determined bytes",
+               ["op.flex.push.ok", "op.flex.push.refused", "op.flex.pop.ok", "op.flex.pop.refused", "op.flex.truncate.ok", "op.flex.clear.ok", "op.flex.push_default.*"]),
+    "C13": mem("C13", ["follow"], "refused push / push_slice / push_str / FlexVec push (every way of not fitting the bounded universe offers) and, after each, every operation enabled on the same node as a follow-up compared with the model's successor from the unchanged state",
+               ["op.vec.push.refused", "op.vec.push_slice.refused", "op.str.push_str.refused", "op.flex.push.refused", "op.*.refused.follow"]),
+    "C14": mem("C14", ["vec", "flex", "comp"], "every generated transition (successful and refused): canary bytes on both sides of the slice and every byte outside the node being changed (SAME positions of the mask) compared before/after",
+               ["op.vec.*", "op.flex.*", "op.*.assign.*", "op.*.set.ok"]),
+    "C18": mem("C18", ["comp", "flex"], "assign_in_place transitions that fail (variant room, nested container too small); after the failure: validate(as_bytes()), deep read, size(), a second assignment; unchanged content where the failure is the static room check",
+               ["op.*.assign.refused", "op.*.assign.ok"]),
+})
+def emp(prop, rule, must):
+    return {
+        "technique": TECH,
+        "level_text": "MCEmplace (spec/FlatOps.tla: Build, DefaultContent) states what new_in_place / default_in_place must answer for every catalog type, every content of the bounded universe and the default state, "
+                      "every single slice length from 0 to beyond the needed size and every address offset (three-valued: ok / err(kinds) / either), and the image they must produce; TLC checks that every accepted "
+                      "emplacement is a valid, round-tripping, size-sufficient value, that acceptance is monotone in the length, that the default state is minimal and that portable images have no undetermined byte; "
+                      "each state is replayed with the library's own emplacers (values, generated *Init, FromIterator, FromArray, FromStr, flex::FromIterator, Empty, FlatWrap) on three garbage fills.",
+        "level_note": "Trusted: TLC, Build in spec/FlatOps.tla as the meaning of emplacement, harness. Bounds: catalog, contents of the generous-slice tree universe (ContentMax per type), lengths 0..needed+ALIGN+1.",
+        "quick": [{"type": "tlc-replay", "module": "MCEmplace", "cfg": "MCEmplace_quick.cfg"}],
+        "thorough": [{"type": "tlc-replay", "module": "MCEmplace", "cfg": "MCEmplace_thorough.cfg"}],
+        "rule": rule, "must_exercise": must, "assumptions": CODEC_ASSUME, "exhaustive": True,
+    }
+
+PLANS.update({
+    "C03": emp("C03", "one case per (type, content, slice length, address offset) x 3 garbage fills x emplacer flavour; non-trivial = cases where the content fits (must be accepted, read back, validate, determined bytes equal the reference image)",
+               ["emp.new.ok"]),
+    "C15": emp("C15", "same cases; every single length 0..needed+ALIGN+1 and misaligned placements; non-trivial = all (each has a definite expectation: ok, err with kind set, or either)",
+               ["emp.new.ok", "emp.new.err", "emp.new.err.misaligned", "emp.default.ok", "emp.default.err"]),
+    "C20": emp("C20", "default_in_place cases of every type with default = true / a Default impl / container defaults, every length >= needed, 3 prior contents; compared: deep read = documented default, validate, minimal size(), independence of the prior contents, equality with Default::default() for sized types",
+               ["emp.default.ok"]),
+    "C17": emp("C17", "cases of portable catalog types (portable structs / enums, containers of portable items with portable length types) at every address offset 0..3: ALIGN = 1, emplacement succeeds at odd addresses, bytes equal the reference serialisation",
+               ["emp.new.ok.misaligned"]),
+})
+PLANS["C14"]["quick"].append({"type": "tlc-replay", "module": "MCEmplace", "cfg": "MCEmplace_quick.cfg"})
+PLANS["C14"]["thorough"].append({"type": "tlc-replay", "module": "MCEmplace", "cfg": "MCEmplace_thorough.cfg"})
+PLANS["C14"]["must_exercise"].append("emp.new.*")
+
+PLANS["C05"]["quick"] += [{"type": "tlc-replay", "module": "MCMem", "cfg": "MCMem_flex_quick.cfg"}, {"type": "tlc-replay", "module": "MCMem", "cfg": "MCMem_comp_quick.cfg"}]
+PLANS["C05"]["thorough"] += [{"type": "tlc-replay", "module": "MCMem", "cfg": "MCMem_flex_thorough.cfg"}, {"type": "tlc-replay", "module": "MCMem", "cfg": "MCMem_comp_thorough.cfg"}]
+PLANS["C05"]["rule"] += "; plus every generated transition of MCMem (flex, composite configurations): size() after the operation, and the first size() bytes mapped again"
+PLANS["C04"] = {
+    "technique": TECH,
+    "level_text": "spec/FlatLayout.tla is the reference C layout and the view rule; TLC checks LayoutSane / ViewInside / PortablePacked for every catalog type and slice length and prints, per (type, length, variant), "
+                  "the reference facts and a valid image; the generated Rust definitions (the #[flat] macro applied to the same descriptors) are probed: ALIGN, MIN_SIZE, align_of_val, size_of_val, as_bytes().len(), "
+                  "and the addresses of everything the accessors hand out (fields, payload fields, container data, capacities), compared three-way (library = compiler = reference).",
+    "level_note": "Trusted: TLC, the C layout rule as written in FlatLayout.tla, gen.py. Bounds: the catalog (every kind, alignments 1..16, tag widths 1/2/4) and slice lengths MIN_SIZE..MIN_SIZE+3*ALIGN+2; host target only.",
+    "quick": [{"type": "tlc-replay", "module": "MCLayout", "cfg": "MCLayout.cfg"}],
+    "thorough": [{"type": "tlc-replay", "module": "MCLayout", "cfg": "MCLayout.cfg"}],
+    "rule": "one case per (catalog type, slice length, representative tree per variant): constants, view size and accessor addresses compared with the reference layout; non-trivial = all (each is a distinct program/length/variant)",
+    "must_exercise": ["layout.case", "layout.unsized"], "assumptions": CODEC_ASSUME, "exhaustive": True,
+}
+
 META = {
     "guard": "cargo feature `verif` of flatty-io (io hooks; not yet committed)",
     "enable": "the harness depends on /repo by path; io hooks: flatty-io with features = [\"verif\"]",
